@@ -686,6 +686,39 @@ func (e *cenv) call(x *CExpr) Value {
 				return s
 			}
 			return v
+		case "rangeindexof":
+			// rangeindexof(k): the hidden index of range loop number k of this function (after that loop it equals the number
+			// of elements when the loop ran to its end, and the index of the element it stopped at when it was left early)
+			if len(args) != 1 {
+				cfail("rangeindexof needs a loop number")
+			}
+			kv, ok := e.eval(args[0]).(VInt)
+			if !ok || !kv.t.isInt() {
+				cfail("rangeindexof needs a constant loop number")
+			}
+			loops := findLoops(e.fn)
+			k := int(kv.t.ival.Int64())
+			if k < 0 || k >= len(loops) {
+				cfail("no loop %d", k)
+			}
+			head := loops[k].head
+			var best *ssa.Alloc
+			for _, b := range e.fn.Blocks {
+				for _, in := range b.Instrs {
+					if a, ok := in.(*ssa.Alloc); ok && a.Comment == "rangeindex" && fx.isCell(a) && b.Index < head.Index {
+						if best == nil || b.Index > best.Block().Index {
+							best = a
+						}
+					}
+				}
+			}
+			if best == nil {
+				cfail("loop %d is not a range loop", k)
+			}
+			if v, ok := e.st.cells[best]; ok {
+				return v
+			}
+			return fx.zeroValue(best.Type().(*types.Pointer).Elem())
 		case "atiter":
 			// atiter(e): e in the state the current iteration began with (locals and heap)
 			if e.loopIter == nil {
